@@ -129,7 +129,11 @@ def run_history(plan, seed, decisions, launcher):
     faults = {(f[0], f[1]) for f in plan["faults"] if len(f) >= 2}
     procs = {}
     nxt = 0
-    count = None          # value of the named semaphore (None: does not exist yet)
+    # named semaphores: a name designates an object until it is unlinked; processes keep the object they opened
+    objs = []             # values of the semaphore objects ever created
+    names = {}            # name -> index in objs
+    pobj = {}             # run index -> object opened by that process
+    count = None          # value of the object currently designated by the name (None: no such name), for reports
     holders = set()       # processes between "guard constructed" and "guard destroyed" (markers)
     wholders = set()      # processes between a granted sem_wait and their next sem_post (second, marker-free view)
     trace = []
@@ -171,7 +175,10 @@ def run_history(plan, seed, decisions, launcher):
             for p in live:
                 if p.pending is None:
                     continue
-                if p.pending.startswith("W") and not (count is not None and count > 0):
+                blocked = p.pending[0] in "WX" and not (p.idx in pobj and objs[pobj[p.idx]] > 0)
+                if blocked and p.pending.startswith("X"):
+                    actions.append(("timeout", p.idx))   # the simulated clock may pass the deadline of a timed wait at any time
+                if blocked:
                     continue
                 actions.append(("grant", p.idx))
             if not actions:
@@ -191,6 +198,13 @@ def run_history(plan, seed, decisions, launcher):
                 trace.append("start r%d" % i)
                 bump("process_started")
                 fetch(p)
+            elif a[0] == "timeout":
+                p = procs[a[1]]
+                trace.append("r%d %s -> ETIMEDOUT (simulated clock)" % (p.idx, p.pending))
+                bump("timed_wait_timeout_fired")
+                p.pending = None
+                p.sock.sendall(b"T")
+                fetch(p)
             else:
                 p = procs[a[1]]
                 req = p.pending
@@ -204,23 +218,34 @@ def run_history(plan, seed, decisions, launcher):
                 else:
                     reply = b"K"
                     k = req[0]
+                    o = pobj.get(p.idx)
                     if k == "O":
                         parts = req.split()
-                        if count is None and len(parts) >= 4 and parts[2] == "1":
-                            count = int(parts[3])
+                        nm = parts[1] if len(parts) > 1 else "?"
+                        if nm in names:
+                            pobj[p.idx] = names[nm]
+                        elif len(parts) >= 4 and parts[2] == "1":
+                            objs.append(int(parts[3])); names[nm] = len(objs) - 1; pobj[p.idx] = names[nm]
                             bump("semaphore_created")
-                        elif count is None:
-                            reply = b"E"
-                    elif k == "W":
-                        count -= 1
-                        wholders.add(p.idx)
-                    elif k == "T":
-                        if count is not None and count > 0:
-                            count -= 1; wholders.add(p.idx)
                         else:
                             reply = b"E"
+                    elif k == "U":
+                        nm = req.split()[1] if len(req.split()) > 1 else "?"
+                        if nm in names:
+                            del names[nm]; bump("semaphore_unlinked")
+                        else:
+                            reply = b"E"
+                    elif k in "WX":
+                        objs[o] -= 1
+                        wholders.add(p.idx)
+                    elif k == "T":
+                        if o is not None and objs[o] > 0:
+                            objs[o] -= 1; wholders.add(p.idx)
+                        else:
+                            reply = b"A"
                     elif k == "P":
-                        count = (count or 0) + 1
+                        if o is not None:
+                            objs[o] += 1
                         if p.idx in wholders:
                             wholders.discard(p.idx)
                         else:
@@ -237,10 +262,13 @@ def run_history(plan, seed, decisions, launcher):
                     fetch(p)
             conc = len([q for q in procs.values() if q.live])
             max_conc = max(max_conc, conc)
-            blocked = len([q for q in procs.values() if q.live and q.pending and q.pending.startswith("W") and not (count and count > 0)])
+            count = objs[sorted(names.values())[0]] if names else None
+            blocked = len([q for q in procs.values() if q.live and q.pending and q.pending[0] in "WX" and not (q.idx in pobj and objs[pobj[q.idx]] > 0)])
             abs_states.add((min(count if count is not None else -1, 3), len(holders), len(wholders), min(blocked, 3), min(conc, 4)))
-            if (count or 0) + len(wholders) > INITIAL:
+            if any(v + sum(1 for h in wholders if pobj.get(h) == i) > INITIAL for i, v in enumerate(objs)):
                 bump("conservation_broken_steps")
+            if len(objs) > 1:
+                bump("steps_with_several_semaphore_objects")
             if len(holders) > INITIAL:
                 violation = ("mutual-exclusion", "%d processes inside a lock-protected section at once: runs %s (semaphore value %s)" % (len(holders), sorted(holders), count))
             elif len(wholders) > INITIAL:
